@@ -360,10 +360,15 @@ impl Reporter {
     }
     /// Record a non-trivial case by hash (distinct ones are counted).
     pub fn nontrivial(&mut self, h: u64) {
-        self.distinct.insert(h);
+        // bounded: beyond the cap further distinct cases are not counted (conservative)
+        if self.distinct.len() < 250_000 {
+            self.distinct.insert(h);
+        } else {
+            *self.counters.entry("distinct-set-capped(uncounted)".into()).or_insert(0) += 1;
+        }
     }
     pub fn nontrivial_bytes(&mut self, b: &[u8]) {
-        self.distinct.insert(fnv(b));
+        self.nontrivial(fnv(b));
     }
     pub fn sample(&mut self, v: Value) {
         if self.samples.len() < self.max_samples {
